@@ -21,5 +21,16 @@ func NewLocation(f *fs.File, i bytes.Index) Location {
 		Quote: quote(f.Content(), i),
 	}
 	loc.Line, loc.Column = f.Content().LineAndColumn(i)
+	if n := bytes.Index(f.Content().Len()); i == n && n > 0 {
+		// The end of the file is a position too (an unclosed context, an unterminated
+		// body): right behind the last byte.
+		loc.Line, loc.Column = f.Content().LineAndColumn(n - 1)
+		if last := f.Content().Byte(n - 1); last == '\n' || last == '\r' {
+			loc.Line++
+			loc.Column = 1
+		} else {
+			loc.Column++
+		}
+	}
 	return loc
 }
